@@ -16,7 +16,7 @@ export function* generate({ tier, seed }) {
     const e = encodeEmits(rng, names, out);
     const order = rng.pick(['before', 'before', 'after', 'mixed']);
     const local = rng.bool(0.2) ? rng.pick(['fnDecl', 'arrow', 'fnExpr', 'iife', 'objMethod', 'classMethod']) : false;
-    const second = rng.pick(['ident', 'object', 'array', 'none', 'plainAnnotation', 'identNoAnn', 'identTwoArgs']);
+    const second = rng.pick(['ident', 'object', 'array', 'none', 'plainAnnotation', 'identNoAnn', 'identTwoArgs', 'bareSetupContext', 'bareDestructured']);
     const fnForm = rng.pick(['arrow', 'function']);
     let p2, expectEmits = true;
     if (second === 'ident') p2 = `, ctx: SetupContext<${e}>`;
@@ -25,6 +25,9 @@ export function* generate({ tier, seed }) {
     else if (second === 'object') p2 = `, { emit, slots }: SetupContext<${e}>`;
     else if (second === 'array') p2 = `, [first]: SetupContext<${e}>`;
     else if (second === 'none') { p2 = ''; expectEmits = false; }
+    // SetupContext without a type argument declares no events
+    else if (second === 'bareSetupContext') { p2 = ', ctx: SetupContext'; expectEmits = false; }
+    else if (second === 'bareDestructured') { p2 = ', { emit }: SetupContext'; expectEmits = false; }
     else if (second === 'identNoAnn') { p2 = ', ctx'; expectEmits = false; }
     else { p2 = `, ctx: { emit: ${/^[A-Z]\w*$/.test(e) ? e : `(${e})`} }`; expectEmits = false; }
     const propsT = rng.bool(0.5) ? '{ a?: string }' : '{}';
